@@ -1,7 +1,7 @@
 """C13 – a river metric used as loss is a pure, smaller-is-better function of its inputs.
 
 Every concrete river metric class that validate_loss_function accepts is discovered at run time; for each,
-an explicit-state BFS explores all interleaved call histories (depth 4 quick / 5 thorough) of two loss
+an explicit-state BFS explores all interleaved call histories (depth 4 quick / 6 thorough) of two loss
 wrappers sharing the metric object (letters A(i) / B(i): wrapper A / B evaluates pair i of a family-specific
 alphabet; V: the metric is validated again, i.e. a third explainer is built mid-stream), de-duplicated on
 the canonical state of the metric and both wrappers.  Oracle on every transition: the returned value equals
@@ -208,7 +208,7 @@ def run_task(task):
 
 def main(rep):
     names = discover()
-    depth = 5 if rep.tier == 'thorough' else 4
+    depth = 6 if rep.tier == 'thorough' else 4
     tasks = [(n, depth) for n in names] + [('__routing__', 0)]
     results = choice.pmap(run_task, tasks, chunksize=1)
     fams = {}
